@@ -1,5 +1,6 @@
 import Pi2.Codec
 import Pi2.Sound.Machine
+import Pi2.Gen.Schemas
 /-!
 # C01 — checker soundness
 
@@ -47,6 +48,23 @@ theorem proved_terms_valid (𝔐 : Model) (ph : Phase) (is : List Instr) (s s' :
     (hs : MInv 𝔐 s) (h : run ph s is = some (s', js))
     (hax : ph = .gamma → ∀ a ∈ js, ValidM 𝔐 a) : MInv 𝔐 s' :=
   run_inv 𝔐 ph is s s' js hs h hax
+
+/-! ## Tie to the source: the axiom schemas hard-wired in `execute_instructions`
+
+`Gen.rust_*` are regenerated from `rust/src/lib.rs` on every run.  They must be the schemas the
+model pushes, and they are valid. -/
+
+theorem schemas_tied :
+    Gen.rust_prop1 = prop1P ∧ Gen.rust_prop2 = prop2P ∧ Gen.rust_prop3 = prop3P ∧
+    Gen.rust_quantifier = quantP ∧ Gen.rust_existence = existP := by decide
+
+theorem rust_schemas_valid :
+    Valid Gen.rust_prop1 ∧ Valid Gen.rust_prop2 ∧ Valid Gen.rust_prop3 ∧
+    Valid Gen.rust_quantifier ∧ Valid Gen.rust_existence := by
+  obtain ⟨h1, h2, h3, h4, h5⟩ := schemas_tied
+  rw [h1, h2, h3, h4, h5]
+  exact ⟨fun _ => prop1_validM, fun _ => prop2_validM, fun _ => prop3_validM,
+         fun _ => quant_validM, fun _ => exist_validM⟩
 
 /-! ## Non-vacuity: a concrete accepted proof (φ0 → φ0, the shipped `imp_refl`) -/
 
